@@ -41,6 +41,9 @@ CHECKS = {
  'C18': ('round-trip differential (std encoders -> YamlDecoder vs load_from_str) on generated texts + bounded-exhaustive byte strings x trap modes, termination observed by a process watchdog',
          'Texts (ASCII/Latin/CJK/astral, up to ~4k chars) x 6 encodings x 6 trap modes must decode to the documents of load_from_str; every byte string of length <= 5 (quick) / <= 6 (thorough) over 10 byte values x 6 trap modes plus random / truncated / bit-flipped encodings must return, with strict => decode error on malformed input, lenient traps continuing, callbacks honoured.',
          'std UTF-8 / UTF-16 validation defines malformedness; a hang is reported only after the culprit case alone fails to finish within the limit.', '5 C18'),
+ 'C19': ('differential testing across the four node types and eager vs deferred resolution, plus span-mutation metamorphic checks, over bounded-exhaustive and proptest inputs',
+         'For every accepted input: the four load_from_str results agree structurally; MarkedYaml(Owned) ==/Hash/map-lookup are invariant under replacing every span and under shifting the document by a comment line; early_parse(false) + parse_representation_recursive equals the eager load on all four types with the documented return value; resolving resolved trees is the identity.',
+         'Differential by design, paired with C07 (reference loader) and C08 (resolver oracle).', '5 C19'),
 }
 def main():
     checks = []
